@@ -198,7 +198,7 @@ func lockedSyncerMethods(c *Ctx, rule string) {
 	if st, ok := lws.Underlying().(*types.Struct); ok {
 		for i := 0; i < st.NumFields(); i++ {
 			if _, isI := types.Unalias(st.Field(i).Type()).Underlying().(*types.Interface); isI {
-				wsField = st.Field(i).Name()
+				wsField = FN(st.Field(i))
 			}
 		}
 	}
@@ -901,7 +901,7 @@ func c13WrapOrKeep(c *Ctx, fn *ssa.Function, wrapper *types.Named, field, assert
 				if !isInt && fv != nil && isArg(st, fv) {
 					return "ret(wrap(arg))"
 				}
-				if sf := structValueFields(r.Results[0]); sf[field] == arg.Name() {
+				if sf := structValueFields(r.Results[0]); sf[field] == PN(arg) {
 					return "ret(wrap(arg))"
 				}
 				return "ret(wrap(?))"
